@@ -30,8 +30,13 @@ def sh(cmd, cwd=None, env=None, timeout=None):
 
 def patches():
     out = []
+    try:
+        declared = json.load(open(os.path.join(VERIF, "mutants", "declared.json")))
+    except Exception:  # noqa
+        declared = {}
     for f in sorted(glob.glob(os.path.join(VERIF, "mutants", "*.diff"))):
-        out.append((os.path.basename(f)[:-5], f, None))
+        n = os.path.basename(f)[:-5]
+        out.append((n, f, declared.get(n)))
     for f in sorted(glob.glob(os.path.join(VERIF, "benign", "*.diff"))):
         out.append(("benign-" + os.path.basename(f)[:-5], f, None))
     for d in sorted(glob.glob(os.path.join(VERIF, "seeded", "*"))):
